@@ -224,14 +224,20 @@ def r1_unrenderable(ctx, prog):
             r.inst("ParsedValueSeed::visit_unit", "Ok(Default) only on the `!self.in_range` side: a range branch cannot be null")
         else:
             r.viol("R1:visit_unit#in_range", "a null inside a range is accepted as ParsedValue::Default: code generation would reach unreachable!(\"defaulted value should never have been rendered\")", file=b.file, line=b.line)
+    # a null value is never a plural form: is_possible_plural evaluated on a value of every kind (rules/absint.py)
     fn = ctx.ast.fn("leptos_i18n_parser/src/parse_locales/locale.rs", "is_possible_plural")
-    t = flatp(show(fn.body)) if fn else ""
-    m = re.search(r"ifmatches!value,([^{]*)\{returnNone", t)
-    kinds = set(re.findall(r"ParsedValue::([A-Z][a-z]+)", m.group(1))) if m else set()
-    if "Default" in kinds:
-        r.inst("is_possible_plural", "a null value is never a plural form")
+    if fn is None:
+        r.missing("Locale::is_possible_plural")
     else:
-        r.viol("R1:is_possible_plural#null-form", "a null value can be merged as a plural form: code generation would reach unreachable!()", file="leptos_i18n_parser/src/parse_locales/locale.rs")
+        from rules import absint as _ab
+        fpl = dict(_ab.file_funcs(ctx.ast, "leptos_i18n_parser/src/parse_locales/plurals.rs"))
+        fpl.update(_ab.file_funcs(ctx.ast, "leptos_i18n_parser/src/parse_locales/locale.rs", "Locale"))
+        got = _ab.AEval(funcs=fpl).run_fn(fn, [_ab.CF("Key", name=("str", "k_one")), _ab.C("Default")])
+        ctl = _ab.AEval(funcs=fpl).run_fn(fn, [_ab.CF("Key", name=("str", "k_one")), _ab.C("Literal", _ab.A("s"))])
+        if got == _ab.C("None") and not isinstance(ctl, str) and ctl[0] == "ctor" and ctl[1] == "Some":
+            r.inst("is_possible_plural", "a null value is never a plural form (`k_one: null` -> not a candidate; `k_one: \"..\"` -> candidate)")
+        else:
+            r.viol("R1:is_possible_plural#null-form", "a null value can be merged as a plural form (is_possible_plural(`k_one`, null) = %s): code generation would reach unreachable!()" % (got if isinstance(got, str) else _ab.fmt(got)), file="leptos_i18n_parser/src/parse_locales/locale.rs")
     # nulls and subkeys inside a bloc are dropped by reduce_into: decided by the evaluation of C01.R3 (rules/c01.py) on a bloc that
     # holds every kind of value
     from rules import c01
